@@ -603,28 +603,71 @@ func c13R3(p *core.Program, r *core.Report) {
 		return true
 	})
 	r.Check(stored, rule, reg, "constructed record is stored in the universe", ctor[0].Pos(), "u.pkgs[p.PkgPath] = <newPkg result>", "the result of newPkg is not stored into the universe's package table")
+	// presence: the expression says "the universe has a package under key": the ok of a comma-ok lookup in the package
+	// table, or a call of a predicate of the package whose body is that lookup (`_, ok := u.pkgs[path]; return ok`,
+	// `return u.pkgs[path] != nil`) - the key is then the call's argument.
+	isPkgTable := func(i *types.Info, e ast.Expr) bool {
+		f := core.FieldOf(i, e)
+		return f != nil && f.Name() == "pkgs"
+	}
+	var presence func(in *core.Func, e ast.Expr) (ast.Expr, bool)
+	presence = func(in *core.Func, e ast.Expr) (ast.Expr, bool) {
+		e = ast.Unparen(e)
+		if v := core.VarOf(info, e); v != nil {
+			d, isDef := core.SingleDef(info, in.Body, v)
+			if !isDef || d.Index != 1 {
+				return nil, false
+			}
+			ix, isIx := ast.Unparen(d.Rhs).(*ast.IndexExpr)
+			if !isIx || !isPkgTable(info, ix.X) {
+				return nil, false
+			}
+			return ix.Index, true
+		}
+		call, isCall := e.(*ast.CallExpr)
+		if !isCall || len(call.Args) != 1 {
+			return nil, false
+		}
+		h := p.FuncOfObj(core.CalleeFunc(info, call))
+		if h == nil || h.Body == nil || h.Pkg != load.Pkg || h.Decl == nil || len(h.Decl.Type.Params.List) != 1 || len(h.Decl.Type.Params.List[0].Names) != 1 {
+			return nil, false
+		}
+		hinfo := h.Info()
+		param := hinfo.ObjectOf(h.Decl.Type.Params.List[0].Names[0])
+		rets := ownReturnsOf(h)
+		if len(rets) != 1 || len(rets[0].Results) != 1 {
+			return nil, false
+		}
+		res := ast.Unparen(rets[0].Results[0])
+		var ix *ast.IndexExpr
+		if v := core.VarOf(hinfo, res); v != nil {
+			if d, isDef := core.SingleDef(hinfo, h.Body, v); isDef && d.Index == 1 {
+				ix, _ = ast.Unparen(d.Rhs).(*ast.IndexExpr)
+			}
+		} else if b, isBin := res.(*ast.BinaryExpr); isBin && b.Op == token.NEQ {
+			if id, isNil := ast.Unparen(b.Y).(*ast.Ident); isNil && id.Name == "nil" {
+				ix, _ = ast.Unparen(b.X).(*ast.IndexExpr)
+			}
+		}
+		if ix == nil || !isPkgTable(hinfo, ix.X) || hinfo.ObjectOf(identOf(ix.Index)) != param || identOf(ix.Index) == nil {
+			return nil, false
+		}
+		return call.Args[0], true
+	}
 	// every call of the closure is dominated by the absence test for the same package
 	checkCall := func(in *core.Func, c *ast.CallExpr) {
 		gg := graph(in)
 		ok := false
 		for _, fct := range gg.FactsAt(gg.PointOf(c)) {
-			v := core.VarOf(info, fct.Cond)
-			if v == nil || fct.Val {
+			if fct.Val || fct.Tag != nil {
 				continue
 			}
-			d, isDef := core.SingleDef(info, in.Body, v)
-			if !isDef || d.Index != 1 {
-				continue
-			}
-			ix, isIx := ast.Unparen(d.Rhs).(*ast.IndexExpr)
-			if !isIx {
-				continue
-			}
-			if f := core.FieldOf(info, ix.X); f == nil || f.Name() != "pkgs" {
+			key, isP := presence(in, fct.Cond)
+			if !isP {
 				continue
 			}
 			// key is <arg>.PkgPath
-			sel, isSel := ast.Unparen(ix.Index).(*ast.SelectorExpr)
+			sel, isSel := ast.Unparen(key).(*ast.SelectorExpr)
 			if isSel && sel.Sel.Name == "PkgPath" && len(c.Args) == 1 && core.SameRef(info, sel.X, c.Args[0]) {
 				ok = true
 			}
@@ -639,20 +682,8 @@ func c13R3(p *core.Program, r *core.Report) {
 	// every import is registered before the record is built: an iteration of the loop over the
 	// package's imports ends without the recursive registration only on the "already registered" edge
 	isPresentTest := func(in *core.Func, e ast.Expr) bool {
-		v := core.VarOf(info, e)
-		if v == nil {
-			return false
-		}
-		d, isDef := core.SingleDef(info, in.Body, v)
-		if !isDef || d.Index != 1 {
-			return false
-		}
-		ix, isIx := ast.Unparen(d.Rhs).(*ast.IndexExpr)
-		if !isIx {
-			return false
-		}
-		f := core.FieldOf(info, ix.X)
-		return f != nil && f.Name() == "pkgs"
+		_, ok := presence(in, e)
+		return ok
 	}
 	nImportLoops := 0
 	ast.Inspect(reg.Body, func(n ast.Node) bool {
